@@ -3,12 +3,15 @@ mod blake;
 mod c01;
 mod c01b;
 mod c02;
+mod c03;
 mod c04;
 mod c05;
 mod c07;
 mod c11;
 mod c11walk;
 mod c12;
+mod c13;
+mod c14;
 mod c15;
 mod c18;
 mod compare;
@@ -59,6 +62,10 @@ fn main() {
             report = Report::new("C02", "generated histories over {replace tree by a mutated one (add/modify/touch/chmod/chown/remove/rename/file<->dir), backup(options), backup interrupted at a random mutating micro-step, resume, delete(subset), gc}; after every step each surviving complete version and 'latest complete' is restored and compared with the snapshot taken when it was made; non-trivial = more than one backup step; distinct by canonical history text");
             c02::run(&tier, seed, &mut report);
         }
+        "C03" => {
+            report = Report::new("C03", "scenarios (history prefix, changed tree, options) x EVERY mutating micro-step k of the backup's storage trace (before each operation, and after a write created its file empty); each crash state is checked by the property's oracles, compared with the model's prefix state, and (sampled in quick, all in thorough) resumed by a full backup; all cases non-trivial; distinct by scenario seed and k");
+            c03::run(&tier, seed, &mut report);
+        }
         "C04" => {
             report = Report::new("C04", "scenarios (history prefix + changed tree + small block sizes); for EVERY operation of the fault-free backup trace x {not-found, already-exists, permission-denied, other} one run with that single fault (by OpId), plus random multi-fault runs (p = 1/20, 1/5); non-trivial = at least one operation actually failed; distinct by scenario seed and plan index");
             c04::run(&tier, seed, &mut report);
@@ -70,6 +77,14 @@ fn main() {
         "C07" => {
             report = Report::new("C07", "a direct CreateNew test on the transport; histories (as C02, incl. interrupted and resumed backups) with byte-for-byte snapshots of the archive before/after every step; and two backups of differing sources racing on one archive under schedules (A runs i ops, B runs j, A runs k, for i,j<=10, plus random schedules); non-trivial = history with more than one backup / schedule in which both actors move; distinct by seed and schedule");
             c07::run(&tier, seed, &mut report);
+        }
+        "C13" => {
+            report = Report::new("C13", "generated histories (as C02: option combinations, interrupted and resumed backups, deletes, gc); after EVERY mutating step the real archive is decoded by an independent reader and checked clause by clause against doc/format.md, and the Lean predicate Conforms is evaluated on it; one case per (history, step); all non-trivial");
+            c13::run(&tier, seed, &mut report);
+        }
+        "C14" => {
+            report = Report::new("C14", "generated histories containing backups of unchanged trees with other options, interrupted backups followed by a resume, deletes/gc; block writes are tracked over the whole history; non-trivial = more than three steps; distinct by seed");
+            c14::run(&tier, seed, &mut report);
         }
         "C15" => {
             report = Report::new("C15", "(pattern set, apath) pairs: 1-3 exclusion patterns built from anchored/unanchored names, *, ?, ** in every position, classes, escapes, non-ASCII names, plus malformed patterns; apaths to depth 4 over a component alphabet; and (single glob, arbitrary string) pairs; non-trivial = the real code answers true; distinct by canonical text of the case");
